@@ -286,6 +286,8 @@ Definition src_NTuple_new : list string :=  [
    "return NTuple(values=values, child=NTupleNew(child=values, source_ref=SourceRef.back_frame()))"].
 
 Definition src_NTuple_getitem : list string :=  [
+   "if not isinstance(index, int): ;     raise TypeError(f'NTuple indices must be integers, not {type(index).__name__}')"; 
+   "index = int(index)"; 
    "if index < 0 or index >= len(self.values): ;     raise IndexError(f'Invalid index {index} for NTuple.')"; 
    "accessor = NTupleAccessor(index=index, child=self, source_ref=SourceRef.back_frame())"; 
    "return _generate_accessor(self.values[index], accessor)"].
